@@ -15,7 +15,7 @@ BUILTIN_NAMES = {
 DSL_NAMES = {
     "is_int", "is_bool", "is_intlike", "is_float", "is_num", "is_str", "is_none", "implies", "iff", "forall_range",
     "exists_range", "forall_in", "type_is", "pow2", "bit", "same", "old", "fresh", "has_key", "dict_lookup",
-    "seq_eq", "is_callable", "str_len", "range_len",
+    "seq_eq", "is_callable", "str_len", "range_len", "singleton",
 }
 
 
@@ -848,8 +848,7 @@ def getitem(eng, base, idx, node, frame):
             if -len(base.items) <= k < len(base.items):
                 return base.items[k]
             eng.implicit_raise(z3.BoolVal(True), "IndexError", node, "tuple index")
-            from .symexec import Infeasible
-            raise Infeasible()
+            return eng.dead_value()
         return seq_view(eng, base).nth(i.as_int())
     from .symexec import SeqView
     if isinstance(base, SeqView):
@@ -866,8 +865,7 @@ def getitem(eng, base, idx, node, frame):
         return tv_str(z3.SubString(base.t, z3.If(i < 0, i + ln, i), 1))
     if base.sort != "val":
         eng.implicit_raise(z3.BoolVal(True), "TypeError", node, "not subscriptable")
-        from .symexec import Infeasible
-        raise Infeasible()
+        return eng.dead_value()
     fr = run.fresh_of(base.t)
     if fr is not None:
         if fr.kind in ("list", "tuple", "deque"):
@@ -909,8 +907,7 @@ def getitem(eng, base, idx, node, frame):
         cands.append((isstr, ("str",)))
     eng.implicit_raise(z3.Not(z3.Or([c for c, _ in cands])) if cands else z3.BoolVal(True), "TypeError", node, "not subscriptable")
     if not cands:
-        from .symexec import Infeasible
-        raise Infeasible()
+        return eng.dead_value()
     if len(cands) > 1 and (run.merge_depth or run.merge_only) and isinstance(frame_module(frame), tuple):
         # specifications subscript data (tuples, lists, dicts), never repo objects
         data = [c for c in cands if c[1][0] in ("dict", "seq")]
@@ -956,8 +953,7 @@ def call_dunder(eng, base, cls, name, args, node, frame):
     if r and r[0] == "method":
         return eng.call_function(r[2], [base] + list(args), {}, self_cls=cls, node=node)
     eng.implicit_raise(z3.BoolVal(True), "TypeError", node, f"no {name}")
-    from .symexec import Infeasible
-    raise Infeasible()
+    return eng.dead_value()
 
 
 def defaultdict_get(eng, fr, kv, node):
@@ -1166,8 +1162,7 @@ def call_value(eng, callee, args, kwargs, node, frame):
                 return call_dunder(eng, callee, sc, "__call__", args, node, frame) if not kwargs else _call_dunder_kw(eng, callee, sc, args, kwargs, node)
             return call_unknown_callable(eng, callee, args, kwargs, node, frame)
         eng.implicit_raise(z3.BoolVal(True), "TypeError", node, "not callable")
-        from .symexec import Infeasible
-        raise Infeasible()
+        return eng.dead_value()
     raise _U(f"call of {callee}")
 
 
@@ -1200,8 +1195,7 @@ def call_unknown_callable(eng, callee, args, kwargs, node, frame):
         conds.append(isf)
     eng.implicit_raise(z3.Not(z3.Or(conds)) if conds else z3.BoolVal(True), "TypeError", node, "not callable")
     if not opts:
-        from .symexec import Infeasible
-        raise Infeasible()
+        return eng.dead_value()
     if len(opts) == 1:
         k = 0
     else:
@@ -1487,8 +1481,7 @@ def prim_attr(eng, base, attr, node, frame):
             return tv_int(0)
         return BoundMethod(base, attr)
     eng.implicit_raise(z3.BoolVal(True), "AttributeError", node, f"{base.sort} has no attribute {attr}")
-    from .symexec import Infeasible
-    raise Infeasible()
+    return eng.dead_value()
 
 
 def external_attr(eng, base, cls, attr, node, frame):
@@ -1503,13 +1496,11 @@ def external_attr(eng, base, cls, attr, node, frame):
         return BoundMethod(base, attr)
     if cls.name == "NoneType" or cls.name in ("int", "float", "bool", "str"):
         eng.implicit_raise(z3.BoolVal(True), "AttributeError", node, f"{cls.name} has no attribute {attr}")
-        from .symexec import Infeasible
-        raise Infeasible()
+        return eng.dead_value()
     if fr is None:
         return eng.read_field(base, attr)
     eng.implicit_raise(z3.BoolVal(True), "AttributeError", node, f"{cls.name} has no attribute {attr}")
-    from .symexec import Infeasible
-    raise Infeasible()
+    return eng.dead_value()
 
 
 def external_attr_groups(eng, attr):
@@ -1591,8 +1582,7 @@ def visit_dispatch(eng, recv, args, kwargs, node, frame):
         if run.quick_feasible(cond):
             opts.append((cond, mname))
     if not opts:
-        from .symexec import Infeasible
-        raise Infeasible()
+        return eng.dead_value()
     merge = run.merge_depth > 0 or run.merge_only
 
     def do(mname):
@@ -1636,6 +1626,13 @@ def builtin_method(eng, recv, name, args, kwargs, node, frame):
         raise _U(f"method {name} on number")
     fr = run.fresh_of(recv.t)
     t = recv.t
+    if fr is None and name in ("is_integer", "count", "zfill", "rfind", "startswith", "endswith", "join", "format", "split"):
+        if run._entails(S.is_VReal(t)):
+            return builtin_method(eng, TV(S.rv(t), "real"), name, args, kwargs, node, frame)
+        if run._entails(S.is_VStr(t)):
+            return builtin_method(eng, TV(S.sv(t), "str"), name, args, kwargs, node, frame)
+        if run._entails(S.is_VInt(t)):
+            return builtin_method(eng, TV(S.iv(t), "int"), name, args, kwargs, node, frame)
     mutators = {"append", "extend", "insert", "pop", "remove", "clear", "sort", "reverse", "update", "setdefault", "popitem",
                 "add", "discard", "appendleft", "popleft", "__setitem__"}
     if fr is None:
@@ -2081,8 +2078,7 @@ def length_of(eng, v, node, frame):
         return z3.Length(v.t)
     if v.sort != "val":
         eng.implicit_raise(z3.BoolVal(True), "TypeError", node, "len() of number")
-        from .symexec import Infeasible
-        raise Infeasible()
+        return eng.dead_value()
     fr = run.fresh_of(v.t)
     if fr is not None:
         if fr.kind in ("list", "tuple", "deque", "dict"):
@@ -2201,8 +2197,7 @@ def to_int(eng, args, node, frame):
         if r and r[0] == "method":
             return eng.call_function(r[2], [v], {}, self_cls=sc, node=node)
         eng.implicit_raise(z3.BoolVal(True), "TypeError", node, "int() of object")
-        from .symexec import Infeasible
-        raise Infeasible()
+        return eng.dead_value()
     t = v.t
     # unknown Val: numbers, strings, objects with __int__
     groups = {}
@@ -2249,8 +2244,7 @@ def to_float(eng, v, node, frame):
         if r and r[0] == "method":
             return eng.call_function(r[2], [v], {}, self_cls=sc, node=node)
         eng.implicit_raise(z3.BoolVal(True), "TypeError", node, "float() of object")
-        from .symexec import Infeasible
-        raise Infeasible()
+        return eng.dead_value()
     t = v.t
     eng.implicit_raise(z3.Not(z3.Or(S.is_numeric(t), S.is_VStr(t))), "TypeError", node, "float() argument")
     return tv_real(z3.If(S.is_VStr(t), REAL_OF_STR(S.sv(t)), S.real_of(t)))
@@ -2311,6 +2305,11 @@ def call_dsl(eng, name, args, kwargs, node, frame):
         return tv_val(DictView(eng, d).get(key_norm(eng, k)))
     if name == "range_len":
         return tv_int(range_len_term(eng, a[0].as_int(), a[1].as_int(), a[2].as_int()))
+    if name == "singleton":
+        st, x = a
+        member = set_view(eng, st)
+        y = z3.Const(run.fresh_name("sy"), S.Val)
+        return tv_bool(z3.ForAll([y], member(y) == (y == x.val())))
     if name == "str_len":
         return tv_int(z3.Length(a[0].as_str()))
     raise _U(f"dsl helper {name}")
